@@ -30,10 +30,17 @@ def St.set (s : St) (sid : Nat) (used : Bool) : St :=
   { s with live := (sid, used) :: s.live.filter (·.1 != sid) }
 def St.del (s : St) (sid : Nat) : St := { s with live := s.live.filter (·.1 != sid) }
 
-def kinds : List String := ["tcp", "fwd", "udp", "shell"]
+def kinds : List String := ["tcp", "fwd", "udp", "shell", "file"]
+
+/-- shell and file streams carry ONE command / transfer per handshake -/
+def singleUse (kind : String) : Bool := kind == "shell" || kind == "file"
 
 /-- Model answer of one `hs` op (tokens after splitting the line). -/
 def step (s : St) : List String → St × String
+  | ["hs", "icmpkx", req, _] =>
+    -- both ICMP call sites derive the same key (C03_agree), twice on one session; the echo payload makes
+    -- the round trip and never shows in a ciphertext
+    if req.toNat?.isSome then (s, "icmpkx agree 1 1 rt 1 leak 0") else (s, "bad-op")
   | ["hs", "new", kind, k] =>
     if kinds.contains kind then ({ kind := kind, faulty := k != "0", live := [] }, "ok") else (s, "bad-op")
   | ["hs", "open", sid, _, mode] =>
@@ -53,7 +60,7 @@ def step (s : St) : List String → St × String
       if s.faulty || s.tainted.contains sid then (s, "anyof pong 0 0 | nopong 0 0")
       else match s.find sid with
         | some used =>
-          if s.kind == "shell" && used then (s, "nopong 0 0") else (s.set sid true, "pong 0 0")
+          if singleUse s.kind && used then (s, "nopong 0 0") else (s.set sid true, "pong 0 0")
         | none => (s, "nopong 0 0")
     | none => (s, "bad-op")
   | ["hs", "close", sid] =>
@@ -73,6 +80,11 @@ structure Spec where
 
 def spec (s : Spec) (op out : List String) : Spec × String :=
   match op, out with
+  | ["hs", "icmpkx", _, _], ["icmpkx", "agree", a1, a2, "rt", rt, "leak", l] =>
+    if a1 ≠ "1" ∨ a2 ≠ "1" ∨ rt ≠ "1" then (s, "fail tunnel-ends-disagree icmp call sites")
+    else if l ≠ "0" then (s, "fail plaintext-written-by-handler icmp")
+    else (s, "ok")
+  | ["hs", "icmpkx", _, _], _ => (s, "fail tunnel-ends-disagree icmp key exchange failed")
   | ["hs", "new", kind, k], _ => ({ kind := kind, faulty := k != "0", acked := [] }, "ok")
   | ["hs", "open", sid, _, _], [r] =>
     match sid.toNat? with
@@ -96,7 +108,7 @@ def spec (s : Spec) (op out : List String) : Spec × String :=
       else if r = "pong" then (s', "ok")
       else match cur with
         | some used =>
-          if s.faulty || s.tainted.contains sid || (s.kind == "shell" && used) then (s', "ok")
+          if s.faulty || s.tainted.contains sid || (singleUse s.kind && used) then (s', "ok")
           else (s', "fail tunnel-ends-disagree after an acknowledged open")
         | none => (s', "ok")
     | none => (s, "ok")
